@@ -311,7 +311,12 @@ pub fn cmd_emit(args: &[String]) -> i32 {
             eprintln!("definition: {}", spec.pretty());
         }
         for (vi, v) in vectors.iter().enumerate() {
+            let calls_before = crate::build::COMPLETER_CALLS.load(std::sync::atomic::Ordering::SeqCst);
             let o = run(&parser, v);
+            // user code handed to `complete` is for completion requests: on these lines (none
+            // carries the marker) a build with the feature calls it as often as one without
+            let completer_calls =
+                crate::build::COMPLETER_CALLS.load(std::sync::atomic::Ordering::SeqCst) - calls_before;
             execs += 1;
             *classes.entry(o.class()).or_insert(0u64) += 1;
             // what a real process prints for a failure goes through `print_message`, which adds
@@ -333,6 +338,11 @@ pub fn cmd_emit(args: &[String]) -> i32 {
                 Outcome::Completion(t) => format!("Completion({:?})", t),
                 Outcome::Panic(m) => format!("Panic({:?})", m),
                 Outcome::FuelExhausted => "Fuel".to_string(),
+            };
+            let text = if completer_calls > 0 {
+                format!("{} completer-called({})", text, completer_calls)
+            } else {
+                text
             };
             // structured facts about the case (from definition and vector only), used to key
             // known findings; they are not part of what is compared
